@@ -98,6 +98,9 @@ def _work_replay(arg: Tuple[str, Dict[str, Any]]) -> Dict[str, Any]:
             _work(tuple(h))
         except Exception:
             pass
+    if case.get("kind") == "isolation":
+        from . import isolation
+        return isolation.observe_iso(pid, case)
     return _observe(load_prop(pid), case)
 
 
@@ -192,7 +195,10 @@ class Ctx:
         self.validated += len(obs)
         self.evaluations += len(obs)
         for case, o in pairs:
-            if self.prop.nontrivial(case, o):
+            if case.get("kind") == "isolation":
+                if len({(s["obj"], s["op"]) for s in o.get("hist", [])}) >= 3:
+                    self.nontrivial.add("iso:" + json.dumps(case["hist"]))
+            elif self.prop.nontrivial(case, o):
                 self.nontrivial.add(self.prop.fingerprint(case, o))
             self.judge(case, o, verdicts[o["id"]])
         for case, o in pairs[:2]:
@@ -283,7 +289,7 @@ def main(argv: Optional[List[str]] = None) -> int:
             case = payload["case"]
             with ProcessPoolExecutor(max_workers=1) as ex:
                 obs = list(ex.map(_work_replay, [(prop.id, case)]))[0]
-            module = payload.get("trace_module") or prop.trace_module
+            module = payload.get("trace_module") or case.get("trace_module") or prop.trace_module
             ctx.validate_pairs([(case, obs)], module)
             print(json.dumps({"id": case["id"], "violations": [(c, w) for c, w, _ in ctx.violations]}, indent=1))
             return ctx.finish()
@@ -292,6 +298,8 @@ def main(argv: Optional[List[str]] = None) -> int:
         prop.prepare(ctx)
         ctx.run_cases()
         prop.extra(ctx)
+        from . import isolation
+        isolation.run(ctx)
         return ctx.finish()
     except tlc.TLCError as ex:
         print(f"MACHINERY-FAILURE {a.prop}: {ex}", file=sys.stderr)
